@@ -131,11 +131,12 @@ theorem route_index_injective_partial (a b : IpNlri) (ha : wf a = true) (hb : wf
   unfold routeIndex at h
   exact index_key a b wa wb hk hda hdb hna hnb hr (fam_split wa.afi wa.safi wb.afi wb.safi h).2.2
 
-/-- **The repaired encoding is injective with no side condition** (one discriminator byte in place
-    of the ASCII sentinels; proposed_fixes/F15-index-collision.md). -/
-theorem index_fixed_injective (a b : IpNlri) (ha : wf a = true) (hb : wf b = true)
+/-- **The repaired encoding is injective with no side condition** (an explicit path-id is introduced
+    by `b'path'`, which makes the three tags a prefix-free code, and IPVPN says whether an RD
+    follows; proposed_fixes/F15-index-collision.md). -/
+theorem index_fixed_injective (a b : IpNlri) (ha : wf a = true) (hb : wf b = true) (hk : a.kind = b.kind)
     (h : indexFix a = indexFix b) : key a = key b :=
-  indexFix_key a b (wf_iff a ha) (wf_iff b hb) h
+  indexFix_key a b (wf_iff a ha) (wf_iff b hb) hk h
 
 /-- The repaired `__hash__` (`hash(self.index())`) respects `==` by construction, and the three
     collision pairs are told apart. -/
@@ -303,6 +304,7 @@ theorem framing_constants :
     ∧ vplsPayloadSize = 17 ∧ rtcMinBits = 32 ∧ rtcMaxBits = 96 ∧ rtcFullLength = 13
     ∧ srPolicyV4Size = 12 ∧ srPolicyV6Size = 24
     ∧ flowCompactMax = 240 ∧ flowExtendedMax = 4095 ∧ flowExtendedValue = 240 ∧ flowExtendedMask = 240
+    ∧ flowCompactLimit = 240 ∧ 4095 ≤ flowEncodeLimit ∧ flowEncodeLimit ≤ 4096
     ∧ flowLowerMask = 15
     ∧ rdSizes.filter (fun r => r.2.2 ≠ 0) = [(1, 128, 8), (2, 128, 8), (16388, 72, 8)] := by decide
 
